@@ -6,6 +6,7 @@ from typing import Dict, List, Optional, Set, Tuple
 
 from ..cfg import CFG, Node, explore, refine, walk_node
 from ..model import AnalysisError, FuncInfo, Repo, method_call, src, walk_no_nested
+from ..model import dotted as dotted_name
 from ..report import Ob, bad, note, ok, skip
 from ..scope import assignments_to
 from . import rule
@@ -264,7 +265,8 @@ def _combine_internals(fi: FuncInfo) -> List[Ob]:
     sel_names.add(va)
     k = 0
     for loop in [n for n in walk_no_nested(fn) if isinstance(n, ast.For)]:
-        consumes = [m for m in ast.walk(loop) if isinstance(m, ast.Assign) and any(isinstance(t, ast.Attribute) and t.attr in ("state", "state_objs") and isinstance(t.ctx, ast.Store) for t in m.targets)]
+        consumes = [m for m in ast.walk(loop) if (isinstance(m, ast.Assign) and any(isinstance(t, ast.Attribute) and t.attr in ("state", "state_objs") and isinstance(t.ctx, ast.Store) for t in m.targets))
+                    or (isinstance(m, ast.Call) and (dotted_name(m.func) or "").endswith("kron"))]
         if not consumes:
             continue
         k += 1
